@@ -362,6 +362,9 @@ type solverSpec struct {
 
 var solvers = []solverSpec{
 	{"z3-5.1.0", func(f string, s int) []string { return []string{"z3-new", fmt.Sprintf("-T:%d", s), f} }},
+	{"z3-5.1.0 (ematching only)", func(f string, s int) []string {
+		return []string{"z3-new", "smt.mbqi=false", fmt.Sprintf("-T:%d", s), f}
+	}},
 	{"cvc5-1.0.3", func(f string, s int) []string {
 		return []string{"cvc5", "--lang=smt2", fmt.Sprintf("--tlimit=%d", s*1000), f}
 	}},
